@@ -805,7 +805,11 @@ unsafe impl Sync for Re {}
 
 /// Value type whose destructor calls back into the cache it was stored in.
 pub struct DropVal<const ALG: u8> {
+    /// payload (symbolic for the entry the outer operation inserts)
     v: u64,
+    /// weight and filter outcome are LITERALS (they decide how many evictions happen, see `Sc::lit`)
+    w: usize,
+    rej: bool,
     re: *const Re,
     armed: bool,
 }
@@ -833,15 +837,15 @@ where
     // avoided).  action 0: insert of a fresh weight-0 key; 1: insert that replaces resident key 17; 2: disk-only insert.
     match re.action {
         0 => {
-            let e = cache.insert(48, DropVal { v: 0, re: std::ptr::null(), armed: false });
+            let e = cache.insert(48, DropVal { v: 0, w: 0, rej: false, re: std::ptr::null(), armed: false });
             drop(e);
         }
         1 => {
-            let e = cache.insert(17, DropVal { v: 1, re: std::ptr::null(), armed: false });
+            let e = cache.insert(17, DropVal { v: 1, w: 1, rej: false, re: std::ptr::null(), armed: false });
             drop(e);
         }
         _ => {
-            let e = cache.insert_with_properties(48, DropVal { v: 0, re: std::ptr::null(), armed: false }, HProps::default().with_location(Location::OnDisk));
+            let e = cache.insert_with_properties(48, DropVal { v: 0, w: 0, rej: false, re: std::ptr::null(), armed: false }, HProps::default().with_location(Location::OnDisk));
             drop(e);
         }
     }
@@ -877,7 +881,7 @@ pub const CB_WEIGHTER: u8 = 2;
 pub const CB_FILTER: u8 = 4;
 pub const CB_DROP: u8 = 8;
 
-fn c16<E, const ALG: u8>(cfg: E::Config, cbs: u8, op: u8, action: Option<u8>)
+fn c16<E, const ALG: u8>(cfg: E::Config, cbs: u8, op: u8, action: Option<u8>, lit_w: usize)
 where
     E: Eviction<Key = u64, Value = DropVal<ALG>, Properties = HProps>,
 {
@@ -901,13 +905,13 @@ where
             if cw {
                 fire::<ALG>(&rw);
             }
-            (v.v & 3) as usize
+            v.w
         }),
         filter: Arc::new(move |_k: &u64, v: &DropVal<ALG>| {
             if cf {
                 fire::<ALG>(&rf);
             }
-            v.v & 4 == 0
+            !v.rej
         }),
         event_listener: if cbs & CB_LISTENER != 0 {
             Some(Arc::new(ReListener::<ALG> { re: re.clone() }) as Arc<dyn EventListener<Key = u64, Value = DropVal<ALG>>>)
@@ -920,8 +924,8 @@ where
     let armed = cbs & CB_DROP != 0;
     let rp: *const Re = Arc::as_ptr(&re);
     // pre-state: full cache (two entries of weight 1); callbacks are not armed yet (cache pointer is null)
-    drop(cache.insert(KEYS[0], DropVal { v: 1, re: rp, armed }));
-    drop(cache.insert(KEYS[1], DropVal { v: 1, re: rp, armed }));
+    drop(cache.insert(KEYS[0], DropVal { v: 1, w: 1, rej: false, re: rp, armed }));
+    drop(cache.insert(KEYS[1], DropVal { v: 1, w: 1, rej: false, re: rp, armed }));
     re.cache.set(&cache as *const Cache<E> as *const ());
 
     // insert / disk-only insert: symbolic key; remove / get return optional handles: concrete resident key 16
@@ -930,13 +934,13 @@ where
     let k = if op == OP_INSERT || op == OP_INSERT_DISK { KEYS[2] } else { KEYS[0] };
     match op {
         OP_INSERT => {
+            // literal weight 1 (one eviction at capacity) or 2 (two), symbolic payload
             let v: u64 = kani::any();
-            kani::assume(v < 8);
-            let e = cache.insert(k, DropVal { v, re: rp, armed });
+            let e = cache.insert(k, DropVal { v, w: lit_w, rej: false, re: rp, armed });
             drop(e);
         }
         OP_INSERT_DISK => {
-            let e = cache.insert_with_properties(k, DropVal { v: 1, re: rp, armed }, HProps::default().with_location(Location::OnDisk));
+            let e = cache.insert_with_properties(k, DropVal { v: kani::any(), w: lit_w, rej: false, re: rp, armed }, HProps::default().with_location(Location::OnDisk));
             drop(e);
         }
         OP_REMOVE => {
@@ -960,7 +964,7 @@ where
 macro_rules! c16h {
     ($name:ident, $e:ty, $alg:expr, $cfg:expr, $cbs:expr, $op:expr, $action:expr) => {
         verif_harness! { #[kani::stub(crate::inflight::InflightManager::take, crate::inflight::InflightManager::verif_take_none)] $name, 5, {
-            c16::<$e, $alg>($cfg, $cbs, $op, $action);
+            c16::<$e, $alg>($cfg, $cbs, $op, $action, 1);
         } }
     };
 }
@@ -1019,6 +1023,24 @@ verif_harness! { c17_hash_table_indexer_collision, 8, {
     assert!(Arc::ptr_eq(ix.get(1, &y).expect("C17: removing one key removed its twin"), ry));
     kani::cover!(true, "end reached");
     std::mem::forget((ra, rb, ra2, old, removed));
+    std::mem::forget(ix);
+} }
+
+/// Smaller rung of the same obligation: two colliding keys inserted, both looked up.
+verif_harness! { c17_hash_table_indexer_two, 8, {
+    use crate::indexer::Indexer as _;
+    let mk = |k: u64, v: u64| -> Arc<Record<FifoT>> {
+        Arc::new(Record::new(Data { key: k, value: v, properties: HProps::default(), hash: k >> 4, weight: 1 }))
+    };
+    let mut ix: HashTableIndexer<FifoT> = HashTableIndexer::default();
+    let ra = mk(16, kani::any());
+    let rb = mk(17, kani::any());
+    assert!(ix.insert(ra.clone()).is_none());
+    assert!(ix.insert(rb.clone()).is_none(), "C17: inserting a colliding key replaced the other key's entry");
+    assert!(Arc::ptr_eq(ix.get(1, &16u64).expect("C17: first of two colliding keys lost"), &ra), "C17: lookup returned the colliding key's record");
+    assert!(Arc::ptr_eq(ix.get(1, &17u64).expect("C17: second of two colliding keys lost"), &rb), "C17: lookup returned the colliding key's record");
+    kani::cover!(true, "end reached");
+    std::mem::forget((ra, rb));
     std::mem::forget(ix);
 } }
 
